@@ -253,10 +253,10 @@ func (fr *frame) slice(instr *ssa.Slice, x, lo, hi, max value) value {
 	_, isSym := x.(symstr)
 	if isStr || isSym {
 		if l < 0 || h < l || h > int64(Len) {
-			panic(fr.i.rtPanic(fmt.Sprintf("slice bounds out of range [%d:%d] with length %d", l, h, Len)))
+			panic(fr.i.rtPanic(fmt.Sprintf("slice bounds out of range [%d:%d] with length %d at %s <- %s", l, h, Len, fr.fn, fr.stackString(4))))
 		}
 	} else if l < 0 || h < l || m < h || m > int64(Cap) {
-		panic(fr.i.rtPanic(fmt.Sprintf("slice bounds out of range [%d:%d:%d] with capacity %d", l, h, m, Cap)))
+		panic(fr.i.rtPanic(fmt.Sprintf("slice bounds out of range [%d:%d:%d] with capacity %d at %s <- %s", l, h, m, Cap, fr.fn, fr.stackString(4))))
 	}
 	switch x := x.(type) {
 	case string:
